@@ -40,7 +40,16 @@ def case(args):
             sub = rnd.choice([b"hdr", b"h dr", b"inc#1", b"."])
             rel = os.path.normpath(os.path.join(sub, name)) if sub != b"." else name
             full = os.path.join(wd.encode(), rel)
-            written = rel if relative else full
+            if rnd.random() < 0.2:
+                # '..' after a symbolic link to a directory: the textual parent (view) is not the real parent (store/v1)
+                os.makedirs(os.path.join(wd, "store/v1/inc"), exist_ok=True)
+                os.makedirs(os.path.join(wd, "view"), exist_ok=True)
+                if not os.path.lexists(os.path.join(wd, "view/cur")):
+                    os.symlink("../store/v1/inc", os.path.join(wd, "view/cur"))
+                rel = b"view/cur/../" + name
+                full = os.path.join(wd.encode(), b"store/v1", name)
+                sub = b"view/cur/.."
+            written = rel if relative else os.path.join(wd.encode(), rel)   # `full` is where the file really lives
             exists = rnd.random() < 0.7
             if any(p["full"] == full for p in paths):
                 continue
@@ -104,7 +113,8 @@ def case(args):
         for p in order:
             res["paths"] += 1
             special = sorted(set(ch for ch in " #$\\:%'\"" if ch.encode() in os.path.basename(p["written"])))
-            klass = "%s, %s path%s%s%s" % (style, "relative" if p["relative"] else "absolute", ", working-directory set" if use_wd else "", (", name contains " + "".join(special)) if special else "",
+            klass = "%s, %s path%s%s%s%s" % (style, "relative" if p["relative"] else "absolute", ", working-directory set" if use_wd else "", (", name contains " + "".join(special)) if special else "",
+                                          ", '..' after a symlinked directory" if b"view/cur/../" in p["written"] else "",
                                           (", file %d of %d dependency files" % (paths.index(p) % ndeps + 1, ndeps)) if ndeps > 1 else "")
             if p["exists"]:
                 # edit, then delete
@@ -211,7 +221,7 @@ def run(tier, replay):
         chk.cov["parsers"] = parsers
         chk.cov["cases"] = len(results)
         chk.cov["malformed_classes"] = sorted(c for c in classes if c.startswith("malformed"))
-        chk.cov["rule"] = ("end to end: one shell command whose undeclared reads (2-4 paths over an alphabet with space # $ \\\\ : % quotes and bytes >= 0x80, absolute or relative to "
+        chk.cov["rule"] = ("end to end: one shell command whose undeclared reads (2-4 paths, a fifth of them spelled through '..' after a symbolic link to a directory, over an alphabet with space # $ \\\\ : % quotes and bytes >= 0x80, absolute or relative to "
                            "working-directory, existing or missing) are reported through deps/deps-style {makefile, makefile-ignoring-subsequent-outputs, dependency-info} written by the helper with "
                            "the documented escaping; then each discovered path is edited / deleted / created in turn, each followed by a build (must re-run) and a null build (must not), "
                            "each build a new process; half of the cases use 2-3 dependency files (read i reported in file i % n); a quarter of the single-file cases and all multi-file cases end with one malformed dependency file (any position; malformed from the start or after a well-formed prefix: must fail the command, be retried, and after the repair every path is honoured again); plus parser round trips "
